@@ -5,7 +5,7 @@
    order of the encoded keys by C10 — over the key alphabet; revision 0 = index record.
    Client level: value = Some v (written) | None (deleted); engine level: the marker "tombstone" stands for None. *)
 From KB Require Import Base.Cases Model.Coder Model.ReadSys Model.C03Cases
-  Proofs.Coder Proofs.ReadSys Proofs.ReadSysSnap Proofs.ReadSysThm Proofs.ReadSysSpec.
+  Proofs.Coder Proofs.ReadSys Proofs.ReadSysSnap Proofs.ReadSysThm Proofs.ReadSysSpec Proofs.ReadSysC03.
 Local Open Scope N_scope.
 
 (* point read: Get(k, rv) returns the newest version <= rv of k (rv = 0: the newest stored version) unless it is a deletion *)
@@ -81,6 +81,19 @@ Theorem C03_bytes : forall (V : list (@vrec bytes)) cur k r v R, wf_store V -> a
   get_model (raw_of V) cur k R = GetResp (N.max cur r) (Some (v, r)).
 Proof. exact get_reads_back. Qed.
 Print Assumptions C03_bytes.
+
+(* ---------- the executable oracle ---------- *)
+(* full statement (not proved as one lemma): a case the model reproduces entirely (responses from the dump,
+   dump = layout of the history up to permitted compaction removals) is never an unlisted violation *)
+Definition C03_oracle_sound_full_statement : Prop :=
+  forall c, c03_check c = true -> c03_oracle c <> Some 0.
+
+(* proved part, read level: on the engine image of any well-formed client history without marker values the
+   oracle accepts what the model answers to Get (explicit revision), List and Count *)
+Theorem C03_oracle_sound_partial : forall Vs compat fv cur floor q, wf_store Vs -> no_marker Vs -> read_valid fv cur q ->
+  read_is_model Vs fv cur q -> read_verdict Vs compat cur floor q = None.
+Proof. exact c03_read_verdict_none. Qed.
+Print Assumptions C03_oracle_sound_partial.
 
 (* ---------- findings ---------- *)
 Definition w_a : bytes := [47; 114; 47; 97].   (* "/r/a" *)
